@@ -79,6 +79,9 @@ type RestAgent struct {
 	// map UUIDs to EIDs and received bundles
 	clients sync.Map // uuid[string] -> bpv7.EndpointID
 	mailbox sync.Map // uuid[string] -> []bpv7.Bundle
+
+	// mailboxMutex makes the load-modify-store sequences on the mailbox atomic.
+	mailboxMutex sync.Mutex
 }
 
 // NewRestAgent creates a new RESTful Application Agent.
@@ -130,6 +133,8 @@ func (ra *RestAgent) receiveBundleMessage(msg BundleMessage) {
 	})
 
 	for _, uuid := range uuids {
+		ra.mailboxMutex.Lock()
+
 		var bundles []bpv7.Bundle
 		if val, ok := ra.mailbox.Load(uuid); !ok {
 			bundles = []bpv7.Bundle{msg.Bundle}
@@ -138,6 +143,8 @@ func (ra *RestAgent) receiveBundleMessage(msg BundleMessage) {
 		}
 
 		ra.mailbox.Store(uuid, bundles)
+
+		ra.mailboxMutex.Unlock()
 
 		log.WithFields(log.Fields{
 			"bundle": msg.Bundle.ID().String(),
@@ -197,13 +204,30 @@ func (ra *RestAgent) handleUnregister(w http.ResponseWriter, r *http.Request) {
 	} else {
 		log.WithField("uuid", unregisterRequest.UUID).Info("Unregister REST client")
 		ra.clients.Delete(unregisterRequest.UUID)
+
+		ra.mailboxMutex.Lock()
 		ra.mailbox.Delete(unregisterRequest.UUID)
+		ra.mailboxMutex.Unlock()
 	}
 
 	w.Header().Set("Content-Type", "application/json")
 	if err := json.NewEncoder(w).Encode(unregisterResponse); err != nil {
 		log.WithError(err).Warn("Failed to write REST unregistration response")
 	}
+}
+
+// takeMailbox atomically empties some client's inbox and returns its bundles.
+func (ra *RestAgent) takeMailbox(uuid string) (bundles []bpv7.Bundle, ok bool) {
+	ra.mailboxMutex.Lock()
+	defer ra.mailboxMutex.Unlock()
+
+	val, ok := ra.mailbox.Load(uuid)
+	if !ok {
+		return nil, false
+	}
+
+	ra.mailbox.Delete(uuid)
+	return val.([]bpv7.Bundle), true
 }
 
 // handleFetch returns the bundles from some client's inbox, called by /fetch.
@@ -216,11 +240,9 @@ func (ra *RestAgent) handleFetch(w http.ResponseWriter, r *http.Request) {
 	if jsonErr := json.NewDecoder(r.Body).Decode(&fetchRequest); jsonErr != nil {
 		log.WithError(jsonErr).Warn("Failed to parse REST fetch request")
 		fetchResponse.Error = jsonErr.Error()
-	} else if val, ok := ra.mailbox.Load(fetchRequest.UUID); ok {
+	} else if bundles, ok := ra.takeMailbox(fetchRequest.UUID); ok {
 		log.WithField("uuid", fetchRequest.UUID).Info("REST client fetches bundles")
-		fetchResponse.Bundles = val.([]bpv7.Bundle)
-
-		ra.mailbox.Delete(fetchRequest.UUID)
+		fetchResponse.Bundles = bundles
 	} else if !ok {
 		log.WithField("uuid", fetchRequest.UUID).Debug("REST client has no new bundles to fetch")
 		fetchResponse.Bundles = make([]bpv7.Bundle, 0)
